@@ -809,6 +809,22 @@ def check_hook_contained(ctx, eng, fn) -> None:
                    construct="%s(...) <- except %s" % (source.src(hc.value.func), need))
 
 
+    # the hook MODULE runs code too - when it is imported.  sys.exit() at module level raises SystemExit out of the import, which the
+    # controller's handlers (Exception only) do not stop either
+    imports = [c for c in source.calls_in(fn, include_nested=False) if "import" in ((call_name(c) or "").split(".")[-1]).lower()]
+    for ic in imports:
+        enclosing = [t for t in tries if any(x is ic for st in t.body for x in ast.walk(st))]
+        hs = [h for t in enclosing for h in t.handlers if h.type is None or any(
+            source.src(x).split(".")[-1] in ("SystemExit", "BaseException") for x in (h.type.elts if isinstance(h.type, ast.Tuple) else [h.type]))]
+        ok = bool(hs) and not any(isinstance(x, ast.Raise) for h in hs for st in h.body for x in ast.walk(st))
+        ctx.ob(RID, ic, ok,
+               "SystemExit raised while the hook module is imported is caught (the fallback hook is used)" if ok else
+               "the import of the restart hook module is not enclosed by a handler for SystemExit: a hooks/restart.py that calls sys.exit() at module "
+               "level raises SystemExit out of Engine.restart, _restartComponent and postMortemCheck (which catch Exception only) - the component "
+               "is neither restarted nor given a final state",
+               construct="%s <- except SystemExit" % short(ic, 50))
+
+
 def check_listener_kept(ctx, eng) -> None:
     """C12.R9: subjects subscribed in __init__ are only replaced when the engine is dead (or re-subscribed by the replacing method)."""
     RID = "C12.R9-final-state-listener-kept"
